@@ -37,6 +37,8 @@ def replay_model(check, name, meta, model):
 
 
 def run(check, pool, Task, with_wrappers=True):
+    from . import validate
+    validate.apply(check, ['segments', 'pip', 'point_kernels'])
     tier = check.tier
     plan = THOROUGH if tier == 'thorough' else QUICK
     seeds = 4 if tier == 'thorough' else 2
